@@ -25,6 +25,7 @@ func init() {
 	// replays the same schedule with the crash at EVERY step (fault enumeration)
 	register(&Scenario{Prop: "C08", Name: "filesink-crash", Run: func(rc *RunCtx) { runFileSink(rc, "C08", true, false) }, EnumDraw: "crashstep", EnumEvery: 40})
 	register(&Scenario{Prop: "C15", Name: "filesink-rotation", Run: func(rc *RunCtx) { runFileSink(rc, "C15", false, false) }})
+	register(&Scenario{Prop: "C15", Name: "filesink-rotation-conc", Run: runFileSinkRotConc})
 	register(&Scenario{Prop: "C13", Name: "filesink-faults", Run: func(rc *RunCtx) { runFileSink(rc, "C13", false, true) }})
 }
 
@@ -927,6 +928,126 @@ func (m *fsModel) checkDir(when string, justRotated bool) {
 		for _, d := range m.decoys {
 			if _, err := os.Stat(filepath.Join(m.logDir, d)); err != nil {
 				m.fail("retention", "decoy-removed", "%s: file %q outside the sink's name space disappeared", when, d)
+			}
+		}
+	}
+}
+
+// ---------------------------------------------------------------- C15: concurrent writers that all rotate
+
+// runFileSinkRotConc: 2-4 tasks write through one sink whose size limit makes (nearly) every write
+// rotate. Whatever the interleaving, the files the sink created carry timestamps that increase in
+// creation order, and retention removes the oldest ones only: what remains is the newest.
+func runFileSinkRotConc(rc *RunCtx) {
+	tp := rc.Tape
+	sim := rc.Sim
+	dir, err := os.MkdirTemp("", "simfs-")
+	if err != nil {
+		panic(err)
+	}
+	rc.Dir = dir
+	logDir := filepath.Join(dir, "logs")
+	sink := &el.FileSink{Path: logDir, FileName: "ev.log", MaxBytes: 1 + tp.Choose(2, "maxbytes")*30, MaxFiles: tp.Choose(4, "maxfiles"),
+		TimestampOnlyOnRotate: tp.Choose(2, "tsonrot") == 0}
+	nW := 2 + tp.Choose(3, "nwriters")
+	id := 0
+	var errs []string
+	for w := 0; w < nW; w++ {
+		k := 1 + tp.Choose(3, "nwrites")
+		var mine [][]byte
+		for i := 0; i < k; i++ {
+			id++
+			mine = append(mine, mkPayload(id, 12+tp.Choose(20, "len")))
+		}
+		sim.Spawn(fmt.Sprintf("rotwriter%d", w), func() {
+			for _, data := range mine {
+				simrt.Yield("rotwriter:step")
+				if _, err := sink.Process(context.Background(), &el.Event{Type: "t", Formatted: map[string][]byte{el.JSONFormat: data}}); err != nil {
+					errs = append(errs, err.Error())
+				}
+			}
+		})
+	}
+	rc.Desc = map[string]interface{}{"max_bytes": sink.MaxBytes, "max_files": sink.MaxFiles, "timestamp_only_on_rotate": sink.TimestampOnlyOnRotate, "writers": nW, "events": id}
+	sim.Run(nil)
+	rc.NonTrivial = true
+	if sim.Stuck {
+		rc.Failf("C15.stuck", stuckClass(sim), "concurrent rotation did not finish: %s", strings.Join(sim.StuckInfo, "; "))
+		return
+	}
+	if len(errs) > 0 {
+		rc.Failf("C15.spurious-error", "conc", "Process failed without any fault: %v", errs)
+		return
+	}
+	fs := sim.FS
+	// every file the sink created, in creation order (file identities are handed out in that order)
+	created := map[int]bool{}
+	maxID := 0
+	for _, o := range fs.Opens {
+		if o.Created && strings.HasPrefix(o.Path, logDir) {
+			created[o.File] = true
+			if o.File > maxID {
+				maxID = o.File
+			}
+		}
+	}
+	type nf struct {
+		file int
+		ts   int64
+		name string
+	}
+	var stamped []nf
+	present := map[int]bool{}
+	ents, _ := os.ReadDir(logDir)
+	for _, en := range ents {
+		name := en.Name()
+		fid := fs.FileOfIno(inoOfPath(filepath.Join(logDir, name)))
+		if fid == 0 {
+			continue
+		}
+		present[fid] = true
+		if name == sink.FileName {
+			continue
+		}
+		ts, err := strconv.ParseInt(strings.TrimSuffix(strings.TrimPrefix(name, "ev-"), ".log"), 10, 64)
+		if err != nil || !strings.HasPrefix(name, "ev-") || !strings.HasSuffix(name, ".log") {
+			rc.Failf("C15.rotated-name", "unexpected-file", "unexpected file %q in the sink's directory", name)
+			continue
+		}
+		stamped = append(stamped, nf{fid, ts, name})
+	}
+	sort.Slice(stamped, func(i, j int) bool { return stamped[i].file < stamped[j].file })
+	for i := 1; i < len(stamped); i++ {
+		if stamped[i].ts <= stamped[i-1].ts {
+			rc.Failf("C15.rotated-name", "not-increasing", "the sink created %s before %s, yet its timestamp is not smaller: timestamps must increase strictly from file to file", stamped[i-1].name, stamped[i].name)
+			return
+		}
+	}
+	if len(created) > 2 {
+		simrt.Probe("fs.rotated")
+	}
+	// retention removes the oldest: no file may be gone while one created before it is still there
+	oldestPresent := 0
+	for f := 1; f <= maxID; f++ {
+		if created[f] && present[f] {
+			oldestPresent = f
+			break
+		}
+	}
+	for f := oldestPresent + 1; f <= maxID && oldestPresent > 0; f++ {
+		if created[f] && !present[f] {
+			if sink.MaxFiles == 0 {
+				break // reported below
+			}
+			rc.Failf("C15.retention", "newer-removed", "file #%d (in creation order) was removed although file #%d, created before it, remains: retention keeps the newest", f, oldestPresent)
+			return
+		}
+	}
+	if sink.MaxFiles == 0 {
+		for f := 1; f <= maxID; f++ {
+			if created[f] && !present[f] {
+				rc.Failf("C15.retention", "removed-without-limit", "file #%d (in creation order) was removed although MaxFiles is 0", f)
+				return
 			}
 		}
 	}
